@@ -173,7 +173,7 @@ INT_RE = re.compile(r'-?\d+')
 
 
 def run_case_files(wd, imports, case_type, check_fn, case_terms, shard=300, jobs=16,
-                   timeout=900):
+                   timeout=300):
     """Evaluate check_fn (a Coq function case_type -> Z) on every case inside coqc
     (vm_compute) and return the list of integers, in order."""
     files = []
